@@ -15,6 +15,8 @@ E1 (domain enumeration through Session.execute), per (adapter, SCREEN) graphics 
            right/bottom screen edge, over a patterned screen using every attribute:
            GET then PUT,PSET at the same place leaves the screen unchanged; PUT,XOR (and PUT with the
            default verb) twice at another place restores the screen
+  forms  : LINE / LINE B / LINE BF / GET / PSET with STEP and omitted coordinates, for 3 positions of the
+           graphics cursor: same pixels and same resulting cursor as the absolute form
   line16 : (thorough) all 65,536 ordered endpoint pairs of a 16x16 window in one mode
 """
 from mc.core import Leg, Partial, CheckError, chunked
@@ -524,6 +526,101 @@ def work_getput(shard):
 
 
 # ---------------------------------------------------------------------------
+# coordinate forms: STEP and omitted first points must denote the same points as absolute coordinates
+
+FORM_KINDS = ('line', 'box', 'boxf', 'get', 'pset')
+
+
+def _form_stmts(kind, form, x0, y0, x1, y1, c, cur):
+    """-> statement text for (kind, form), given the graphics cursor `cur` before the statement."""
+    cx, cy = cur
+    p0 = {'abs': b'(%d,%d)' % (x0, y0), 'step': b'STEP(%d,%d)' % (x0 - cx, y0 - cy), 'omit': b''}[form[0]]
+    p1 = {'abs': b'(%d,%d)' % (x1, y1), 'step': b'STEP(%d,%d)' % (x1 - x0, y1 - y0), None: None}[form[1]]
+    if kind == 'pset':
+        return b'PSET %s,%d' % (p0, c)
+    if kind == 'get':
+        return b'GET %s-%s,A%%' % (p0, p1)
+    tail = {'line': b'', 'box': b',B', 'boxf': b',BF'}[kind]
+    return b'LINE %s-%s,%d%s' % (p0, p1, c, tail)
+
+
+def _forms_of(kind):
+    if kind == 'pset':
+        return [('abs', None), ('step', None)]
+    if kind == 'get':
+        # GET (x0,y0)-[STEP](x1,y1): the first point is always absolute
+        return [('abs', 'abs'), ('abs', 'step')]
+    out = [('abs', 'abs'), ('abs', 'step'), ('step', 'abs'), ('step', 'step'), ('omit', 'abs'), ('omit', 'step')]
+    return out
+
+
+def _forms_case(scr, part, kind, x0, y0, x1, y1, cursors):
+    g = scr.g
+    c = g.maxattr
+    results = {}
+    for cur in cursors:
+        for form in _forms_of(kind):
+            case = {'mode': [g.adapter, g.nr, g.mode.name], 'leg': 'forms', 'kind': kind, 'p': [x0, y0, x1, y1],
+                    'cursor': list(cur), 'form': list(form)}
+            if kind == 'pset':
+                xx0, yy0 = x1, y1
+            else:
+                xx0, yy0 = x0, y0
+            # park the cursor without changing a pixel; an omitted first point *is* the cursor
+            park = (xx0, yy0) if form[0] == 'omit' else cur
+            if not _run(scr, part, b'PSET (%d,%d),%d' % (park[0], park[1], scr.tmpl[park[1]][park[0]]), 'forms', case):
+                return
+            stmt = _form_stmts(kind, form, xx0, yy0, x1, y1, c, park)
+            part.n += 1
+            if not _run(scr, part, stmt, 'forms', case):
+                return
+            if kind == 'get':
+                # what was captured: put it elsewhere
+                if not _run(scr, part, b'PUT (30,20),A%,PSET', 'forms', case):
+                    return
+            d1 = scr.diff()
+            # where the cursor is now
+            if not _run(scr, part, b'PSET STEP(0,0),%d' % (c - 1), 'forms', case):
+                return
+            d2 = scr.diff()
+            res = (tuple(sorted(d1.items())), tuple(sorted(d2)))
+            results[(cur, form)] = (res, stmt, case)
+    base = results[(cursors[0], _forms_of(kind)[0])]
+    for key, (res, stmt, case) in results.items():
+        if res[0] != base[0][0]:
+            part.violation('forms/%s/%s-%s/pixels-differ-from-absolute-form' % (kind, key[1][0], key[1][1]),
+                           '%s: %r with the cursor at %r changes %r; %r changes %r' % (
+                               scr.tag, stmt, key[0], res[0][:6], base[1], base[0][0][:6]), case)
+        elif res[1] != base[0][1]:
+            part.violation('forms/%s/%s-%s/cursor-differs-from-absolute-form' % (kind, key[1][0], key[1][1]),
+                           '%s: after %r the graphics cursor is at %r; after %r at %r' % (
+                               scr.tag, stmt, res[1], base[1], base[0][1]), case)
+    part.classes.add('forms/%s/%s' % (g.mode.name, kind))
+    part.outcome('forms:%s' % kind)
+
+
+def work_forms(shard):
+    (adapter, nr, name), k = shard
+    part = Partial()
+    scr = Scr(adapter, nr, name)
+    try:
+        scr.g.must(b'DIM A%(200)')
+        scr.background('pattern')
+        cursors = [(0, 0), (41, 23), (7, 5)]
+        pts = [(5 + i, 4 + j) for i in range(k) for j in range(k)]
+        for kind in FORM_KINDS:
+            for (x0, y0) in (pts if kind != 'pset' else pts[:1]):
+                for (x1, y1) in pts:
+                    if kind == 'get' and (x1 < x0 or y1 < y0):
+                        continue
+                    _forms_case(scr, part, kind, x0, y0, x1, y1, cursors)
+        part.sample({'mode': [adapter, nr, name], 'leg': 'forms', 'window': k})
+    finally:
+        scr.close()
+    return part
+
+
+# ---------------------------------------------------------------------------
 
 def legs(ctx):
     modes = G.graphics_modes()
@@ -554,6 +651,12 @@ def legs(ctx):
                          'x {GET+PUT PSET, PUT XOR twice, PUT default twice}' % (
                              len(modes), nrect, '1,2,3,7,8,9,17' if q else '1..9,16,17', '1,3' if q else '1,2,3',
                              '0,1,5' if q else '0..8', '' if q else ', top and bottom')))
+    kf = 2 if q else 3
+    out.append(Leg('forms', [(m, kf) for m in modes], work_forms, exhaustive=True,
+                   bound='%d modes x {LINE, LINE B, LINE BF, GET, PSET} x all point pairs of a %dx%d window x every '
+                         'combination of absolute / STEP / omitted first point and absolute / STEP second point x 3 '
+                         'positions of the graphics cursor: same pixels and same resulting cursor as the absolute form' % (
+                             len(modes), kf, kf)))
     if not q:
         m = modes[0]
         shards = [(m, x0, list(range(y, y + 4))) for x0 in range(16) for y in range(0, 16, 4)]
@@ -578,6 +681,10 @@ def replay(ctx, leg, case):
         elif sub == 'box':
             scr.background(case['bg'])
             _box_case(scr, part, *case['p'], case['c'], case['shape'], None)
+        elif sub == 'forms':
+            g.must(b'DIM A%(200)')
+            scr.background('pattern')
+            _forms_case(scr, part, case['kind'], *case['p'], [(0, 0), (41, 23), (7, 5)])
         elif sub == 'getput':
             g.must(b'DIM A%(200)')
             scr.background('pattern')
